@@ -130,3 +130,13 @@ def _canary_clear_loses_priority():
 CANARIES = [("Semaphore: release does not decrement", _canary_release_not_counted),
             ("Semaphore: acquire ready at count == max_count", _canary_acquire_ready_off_by_one),
             ("Semaphore: clear loses against a simultaneous acquire", _canary_clear_loses_priority)]
+
+
+def _callers_items():
+    from transactron.lib import Semaphore
+
+    return [("Semaphore(3)", lambda: Semaphore(3), [("acquire", ["acquire"]), ("release", ["release"])], [("clear", ["clear"])])]
+
+
+from ..excl import install as _install  # noqa: E402
+_install(globals(), _callers_items())
